@@ -38,6 +38,8 @@ def load_seeded():
         if os.path.exists(meta) and os.path.exists(patch):
             with open(meta) as f:
                 m = json.load(f)
+            if m.get('superseded_by'):
+                continue        # a later repair of the library made this change harmless (meta.json says which)
             out.append({'name': 'seeded/' + d, 'property': m['property'], 'patch': patch,
                         'also': m.get('also_detected_by', [])})
     return out
